@@ -557,7 +557,8 @@ HARNESSES = {
     "fw_faithful": {
         "fn": fw_faithful,
         "quick": [{"fixed": {"fw_on": True, "li": l, "p2": True, "p3": True, "couple": True}, "timeout": 280} for l in range(6)] + [{"fixed": {"fw_on": False}, "timeout": 120}],
-        "thorough": [{"fixed": {"fw_on": True, "li": l}, "timeout": 1200} for l in range(6)] + [{"fixed": {"fw_on": False}, "timeout": 120}],
+        "thorough": [{"fixed": {"fw_on": True, "li": l, "slot": sl, "p2": True, "p3": True}, "timeout": 1200} for l in range(6) for sl in range(4)]
+        + [{"fixed": {"fw_on": True, "li": 0, "slot": 0, "couple": True}, "timeout": 600}, {"fixed": {"fw_on": False}, "timeout": 120}],
         "cover": ["fw_on", "fw_off"],
         "bounds": "generated firewall-with-DMZ scenario; one rule in any of the six lists at any of the 4 observed slots with listed/None address, wildcard, port, protocol and both actions; the three ports enabled/disabled; firewall ON/OFF",
     },
